@@ -91,10 +91,70 @@ def param_name_storage_uses(ctx: Ctx, f: FuncInfo):
   return g, out
 
 
-def kinds_reaching(g, head: int, node: int) -> Set[str]:
-  """Parameter kinds possible at `node` within one iteration of loop `head`."""
+def loop_source(f: FuncInfo, L: ast.For):
+  """(sequence expression, [filter tests], enumerated?) the loop draws from.
+
+  Follows `enumerate(...)`, a local assigned once, and a list / generator
+  comprehension `[a for a in SEQ if TEST...]` (whose tests hold for every
+  element the loop sees).
+  """
+  it = L.iter
+  enumerated = False
+  tests: List[ast.expr] = []
+  for _ in range(6):
+    if isinstance(it, ast.Call) and unparse(it.func) == 'enumerate' and it.args:
+      enumerated = True
+      it = it.args[0]
+    elif isinstance(it, ast.Call) and unparse(it.func) in (
+        'list', 'tuple') and len(it.args) == 1:
+      it = it.args[0]
+    elif isinstance(it, ast.Name):
+      defs = [s.value for s in walk_function(f.node)
+              if isinstance(s, ast.Assign) and any(
+                  isinstance(t, ast.Name) and t.id == it.id
+                  for t in s.targets)]
+      if len(defs) != 1:
+        break
+      it = defs[0]
+    elif isinstance(it, (ast.ListComp, ast.GeneratorExp)) and len(
+        it.generators) == 1 and isinstance(it.elt, ast.Name) and isinstance(
+            it.generators[0].target, ast.Name) and (
+                it.elt.id == it.generators[0].target.id):
+      tests += it.generators[0].ifs
+      it = it.generators[0].iter
+    else:
+      break
+  return it, tests, enumerated
+
+
+def _has_default_test(t, branch: bool) -> Optional[bool]:
+  """True/False if `t` evaluating to `branch` tells a default exists / not."""
+  if isinstance(t, ast.Compare) and len(t.ops) == 1 and isinstance(
+      t.left, ast.Attribute) and t.left.attr == 'default' and isinstance(
+          t.comparators[0], ast.Attribute) and (
+              t.comparators[0].attr == 'empty'):
+    if isinstance(t.ops[0], ast.IsNot):
+      return branch
+    if isinstance(t.ops[0], ast.Is):
+      return not branch
+  return None
+
+
+def kinds_reaching(g, head: int, node: int, pre_tests=()) -> Set[str]:
+  """Parameter kinds possible at `node` within one iteration of loop `head`.
+
+  `pre_tests` hold for every element (filters of the comprehension the loop
+  iterates).
+  """
   result: Set[str] = set()
   seen = set()
+  start = set(KINDS)
+  for t in pre_tests:
+    kb = kinds_on_branch(t, True)
+    if kb is not None:
+      start &= kb
+    if _has_default_test(t, True):
+      start -= {'VAR_POSITIONAL', 'VAR_KEYWORD'}
 
   def dfs(n, kinds):
     key = (n, frozenset(kinds))
@@ -128,7 +188,7 @@ def kinds_reaching(g, head: int, node: int) -> Set[str]:
             ks = ks - {'VAR_POSITIONAL', 'VAR_KEYWORD'}
       dfs(m, ks)
 
-  dfs(head, set(KINDS))
+  dfs(head, start)
   return result
 
 
@@ -146,9 +206,10 @@ def run(ctx: Ctx, rs: RuleSet, tier: str):
     if not loops:
       raise AnalysisError(f'{q}: no loop over the signature parameters found')
     for head, L, uses in loops:
+      _, pre, _ = loop_source(f, L)
       for b, e, txt in uses:
         n_uses += 1
-        ks = kinds_reaching(g, head, b)
+        ks = kinds_reaching(g, head, b, pre)
         bad = ks & {'POSITIONAL_ONLY', 'VAR_POSITIONAL'}
         rs.check(not bad, rule, f'{q}:`{txt[:60]}`',
                  f'reached only for kinds {sorted(ks)}' if not bad else
@@ -187,10 +248,103 @@ def run(ctx: Ctx, rs: RuleSet, tier: str):
                    '.empty' in unparse(g.stmt[m].test)]
     dflt_guard = any(g.dominated_by(n, {m}, labels=cfg_lib.NO_EXC)
                      for m in has_default)
+    if not dflt_guard:
+      # or the loop only sees parameters that have a default
+      for m in g.nodes():
+        if g.kind[m] == 'for' and g.dominated_by(n, {m}, labels=cfg_lib.NO_EXC):
+          _, pre, _ = loop_source(f, g.stmt[m])
+          if any(_has_default_test(t, True) for t in pre):
+            dflt_guard = True
     rs.check(is_default and guarded and dflt_guard, rule2,
              f'{f.qualname}:`{unparse(e)[:50]}`',
              f'stores `{val}`; only-if-unset={guarded}; '
              f'only-if-default-exists={dflt_guard}', ctx.loc(f, e))
+  # the index under which a positional-only default is stored is the
+  # parameter's position in the whole signature
+  rule4 = 'IDX.signature-position'
+  rs.declare(rule4, 'index keys are positions in the complete parameter '
+             'list', 1)
+  for n, e, _ in stores:
+    if not isinstance(e, ast.Assign):
+      continue
+    key = e.targets[0].slice
+    ok, why = False, f'`{unparse(key)}` is not a loop index'
+    for m in g.nodes():
+      if g.kind[m] == 'for' and g.dominated_by(n, {m}, labels=cfg_lib.NO_EXC):
+        L = g.stmt[m]
+        if isinstance(L.target, ast.Tuple) and isinstance(
+            key, ast.Name) and unparse(L.target.elts[0]) == key.id:
+          seq, pre, enumerated = loop_source(f, L)
+          whole = unparse(seq).endswith(('.parameters.values()',
+                                         '.parameters'))
+          ok = enumerated and whole and not pre
+          why = (f'`{key.id}` enumerates `{unparse(seq)}`' if ok else
+                 f'`{key.id}` counts the elements of a filtered / different '
+                 f'sequence (`{unparse(L.iter)[:50]}`'
+                 + (f' with filter `{unparse(pre[0])[:40]}`' if pre else '') +
+                 '), not positions in the signature: for def f(x, a=2, b=3, /)'
+                 ' the default of b is stored in the slot of a')
+    rs.check(ok, rule4, f'{f.qualname}:`{unparse(e)[:50]}`', why,
+             ctx.loc(f, e))
+
+  # a positional-only default is stored by index only when no earlier
+  # positional-only parameter is left unset (a value cannot be passed
+  # positionally after a gap: a Partial that built before would not build)
+  rule3 = 'GAP.positional-default'
+  rs.declare(rule3, 'index-keyed defaults are materialized only when every '
+             'earlier positional-only parameter has a value', 1)
+  idx_stores = [(n, e) for n, e, _ in stores if isinstance(e, ast.Assign)]
+  for n, e in idx_stores:
+    ok = False
+    why = 'no gap flag found'
+    for m in g.nodes():
+      if g.kind[m] != 'if':
+        continue
+      t = g.stmt[m].test
+      flags = []
+      for u in ast.walk(t):
+        if isinstance(u, ast.UnaryOp) and isinstance(
+            u.op, ast.Not) and isinstance(u.operand, ast.Name):
+          flags.append(u.operand.id)
+      for flag in flags:
+        # store only on the branch where the flag is false
+        tr = g.reach([x for x, lab in g.succ[m] if lab == 'true'],
+                     labels=cfg_lib.NO_EXC)
+        if not (g.dominated_by(n, {m}, labels=cfg_lib.NO_EXC) and n in tr):
+          continue
+        sets = [k for k in g.nodes() if g.kind[k] == 'stmt' and isinstance(
+            g.stmt[k], ast.Assign) and any(
+                isinstance(x, ast.Name) and x.id == flag
+                for x in g.stmt[k].targets)]
+        init = [k for k in sets if isinstance(
+            g.stmt[k].value, ast.Constant) and g.stmt[k].value.value is False]
+        raised = [k for k in sets if isinstance(
+            g.stmt[k].value, ast.Constant) and g.stmt[k].value.value is True]
+        # the flag is raised exactly where a positional-only parameter
+        # without default is found unset
+        raised_ok = bool(raised) and all(
+            any(g.kind[c] == 'if' and g.dominated_by(
+                k, {c}, labels=cfg_lib.NO_EXC) and
+                'POSITIONAL_ONLY' in unparse(g.stmt[c].test) and any(
+                    isinstance(cc, ast.Compare) and isinstance(
+                        cc.ops[0], ast.NotIn) and _is_keyed_map(
+                            cc.comparators[0])
+                    for cc in ast.walk(g.stmt[c].test))
+                for c in g.nodes()) for k in raised)
+        # ... and never lowered again inside the loop
+        if init and raised_ok and len(sets) == len(init) + len(raised) and len(
+            init) == 1:
+          ok = True
+          why = (f'guarded by `not {flag}`; {flag} starts False and is raised '
+                 'when a positional-only parameter without default is unset')
+    rs.check(ok, rule3, f'{f.qualname}:`{unparse(e)[:50]}`',
+             why if ok else
+             f'`{unparse(e)}` materializes a positional-only default even when '
+             'an earlier positional-only parameter has no value: '
+             'fdl.Partial(f) for def f(x, factor=2, /) built before and '
+             'fails afterwards ("Cannot pass a positional argument after '
+             'the positional parameter x")', ctx.loc(f, e))
+
   ok = any('yield_map_child_values' in unparse(c.func) for c in ctx.calls(f))
   md = ctx.func(f'{S}.materialize.materialize_defaults')
   ok = ok and any(p.resolve(c.func, md) == 'fiddle._src.daglish.Traversal.run'
